@@ -47,6 +47,12 @@ MonPost ==
     /\ Check("C03", "RefusedThroughTheEndpointChangesNothing", Ev.status # 200 => Ev.unchanged)
     \* C11: a body that is cut off (over the 16 KiB the endpoint reads) is refused, never understood as the part that fitted
     /\ Check("C11", "OverLongBodyRefusedNotPartlyUnderstood", Ev.kind = "oversize" /\ ~IsLimited => Ev.status = 400 /\ Ev.unchanged)
+    \* C11 through the endpoint: a well-formed body is understood as what was written, however it is DELIVERED (in one piece, in two, line by
+    \* line): it is refused as malformed (400) exactly when the old size it states is beyond the size of the checkpoint it carries, and what is
+    \* stored on acceptance is the checkpoint that was written, whole
+    /\ (Ev.kind = "ok" /\ (~IsLimited \/ Ev.limit >= 1000) /\ InC09Domain(TRUE, st, req) =>
+          /\ Check("C11", "WellFormedBodyUnderstoodHoweverDelivered", (Ev.status = 400) = (SpecVerdict(TRUE, st, req) = "OldSizeInvalid"))
+          /\ Check("C11", "TheCheckpointWrittenIsTheOneStored", Ev.status = 200 => stored'[l] = Signed(req)))
     \* (a 429 excuses the endpoint only where the configured rate can explain it: the runs of this part are configured with 100000 requests/s)
     /\ (Ev.kind = "ok" /\ (~IsLimited \/ Ev.limit >= 1000) =>
           /\ Check("C08", "HonestStepAcceptedThroughTheEndpoint",
